@@ -481,10 +481,19 @@ fn eval_parse(ctx: &Ctx, s: &str, l: &mut Local) {
   if let Ok(Ok(d)) = &r_de {
     judge_did(ctx, "CoreDID::deserialize", s, d, &case);
   }
-  let r_base = guard(|| BaseDIDUrl::parse(s).map_err(identity_did::Error::from).and_then(CoreDID::try_from));
-  let sb = sig_of(&r_base);
-  if !same_decision(&sb, &sd) {
-    ctx.violation("CoreDID::try_from(BaseDIDUrl)|differs-from-deserialize", &format!("input {s:?}: deserialize {sd:?}, try_from {sb:?}"), &case);
+  // TryFrom<BaseDIDUrl>: the conversion from an already parsed third-party value (a panic or error of
+  // `BaseDIDUrl::parse` itself, called here by the harness, is not the library's). Where serde evidently took
+  // the same path (same decision, same string) the defect is one and is keyed as deserialize's.
+  if let Ok(Ok(base)) = guard(|| BaseDIDUrl::parse(s)) {
+    let r_base = guard(|| CoreDID::try_from(base));
+    let sb = sig_of(&r_base);
+    let entry = if same_decision(&sb, &sd) { "CoreDID::deserialize" } else { "CoreDID::try_from(BaseDIDUrl)" };
+    if let Sig::Panic(k) = &sb {
+      ctx.violation(&format!("{entry}|{k}"), &format!("input {s:?}"), &case);
+    }
+    if let Ok(Ok(d)) = &r_base {
+      judge_did(ctx, entry, s, d, &case);
+    }
   }
   // ---- DID URL type
   let r_url = guard(|| DIDUrl::parse(s));
